@@ -203,3 +203,35 @@ func SelfSigned(name string, k crypto.Signer) *x509.Certificate {
 	certCache[name] = c
 	return c
 }
+
+var chainCache = map[string][]*x509.Certificate{}
+
+// IssuedChain returns (cached per process) a two-certificate chain for a key: the leaf certificate carrying the key,
+// issued by a separate CA key, followed by that CA's certificate - the shape X5CHAIN public keys have in deployments
+// (a chain of one self-signed certificate cannot tell "the first certificate" from "the last").
+func IssuedChain(name string, k crypto.Signer) []*x509.Certificate {
+	ca := Get("ec384", "devca")
+	caCert := SelfSigned("ec384-devca", ca)
+	certMu.Lock()
+	defer certMu.Unlock()
+	if c, ok := chainCache[name]; ok {
+		return c
+	}
+	tmpl := &x509.Certificate{
+		SerialNumber: big.NewInt(int64(len(name)) + 1000),
+		Subject:      pkix.Name{CommonName: "verif leaf " + name},
+		NotBefore:    time.Now().Add(-time.Hour),
+		NotAfter:     time.Now().Add(30 * 365 * 24 * time.Hour),
+		KeyUsage:     x509.KeyUsageDigitalSignature,
+	}
+	der, err := x509.CreateCertificate(rand.Reader, tmpl, caCert, k.Public(), ca)
+	if err != nil {
+		panic(err)
+	}
+	leaf, err := x509.ParseCertificate(der)
+	if err != nil {
+		panic(err)
+	}
+	chainCache[name] = []*x509.Certificate{leaf, caCert}
+	return chainCache[name]
+}
